@@ -346,6 +346,8 @@ func (p *Proxy) handleCONNECT(r responder.Responder, proxyReq *http.Request) err
 				slog.Debug("Client closed connection in CONNECT tunnel", "host", proxyReq.Host)
 			} else {
 				slog.Error("Error reading request from client in CONNECT tunnel", "host", proxyReq.Host, "error", err)
+				// A malformed request still gets an answer before the tunnel is closed, as it does outside a tunnel.
+				responder.NewRawHTTPResponder(tlsConn).WriteError("Bad Request", http.StatusBadRequest)
 			}
 			break
 		}
